@@ -1338,6 +1338,35 @@ def _first_match(tree):
                 while i < len(blk):
                     st = blk[i]
                     i += 1
+                    if isinstance(st, ast.Return) and isinstance(
+                            st.value, ast.Call) and isinstance(
+                                st.value.func, ast.Name) and \
+                            st.value.func.id == 'next' and len(
+                                st.value.args) == 2 and not \
+                            st.value.keywords and isinstance(
+                                st.value.args[0], ast.GeneratorExp) and len(
+                                    st.value.args[0].generators) == 1:
+                        # return next((e for x in xs if c), d)
+                        g_, dflt_ = st.value.args
+                        gen_ = g_.generators[0]
+                        body_ = [ast.copy_location(
+                            ast.Return(value=g_.elt), st)]
+                        for c_ in reversed(gen_.ifs):
+                            body_ = [ast.copy_location(ast.If(
+                                test=c_, body=body_, orelse=[]), st)]
+                        tgt_ = gen_.target
+                        for x_ in ast.walk(tgt_):
+                            if isinstance(x_, ast.Name):
+                                x_.ctx = ast.Store()
+                        loop_ = ast.copy_location(ast.For(
+                            target=tgt_, iter=gen_.iter, body=body_,
+                            orelse=[]), st)
+                        last_ = ast.copy_location(
+                            ast.Return(value=dflt_), st)
+                        ast.fix_missing_locations(loop_)
+                        blk[i - 1:i] = [loop_, last_]
+                        i += 1
+                        continue
                     if not (isinstance(st, ast.Assign) and len(
                             st.targets) == 1 and isinstance(
                                 st.targets[0], ast.Name) and isinstance(
@@ -1693,6 +1722,8 @@ def normalise(tree):
                                           ->  ``if a and b: X``
     4. in a loop body ``if c: continue`` + rest  ->  ``if not c: rest``
     Each step is semantics-preserving for any program."""
+    _quantifier_returns(tree)
+    _first_match(tree)
     _unroll_table_loops(tree)
     _table_comprehensions(tree)
     _scope_blocks(tree)
@@ -1704,8 +1735,6 @@ def normalise(tree):
     _filtered_iteration(tree)
     _conditional_expressions(tree)
     _star_dict_calls(tree)
-    _quantifier_returns(tree)
-    _first_match(tree)
     _tuple_assigns(tree)
     _dead_constant_stores(tree)
     if FORWARD_SUBST:
